@@ -22,7 +22,7 @@ type evaluator struct {
 	where string // clause location for error messages
 	implFor types.Type // when verifying an implementation of an interface contract
 	preloop *state // state just before the enclosing loop's havoc (preloop(e))
-	loopMark int64
+	loopMark *T
 	inLoop bool
 }
 
@@ -204,6 +204,9 @@ func (ev *evaluator) ident(name string) Val {
 				ev.fail("local %s is not initialised at this point", name)
 			}
 			return v
+		}
+		if p := ev.frame.lookupHeapLocal(name, ev.pos); p != nil {
+			return ev.c().load(ev.st, p)
 		}
 	}
 	// ghost variable
@@ -787,7 +790,7 @@ func (ev *evaluator) call(x *ECall) Val {
 		if _, ok := v.typ.Underlying().(*types.Slice); !ok {
 			ev.fail("sinceLoop of %s", v.typ)
 		}
-		return Val{t: mkOr(mkEq(c.slRef(v.t), refConst(0)), app("<", "Bool", c.slRef(v.t), refConst(-ev.loopMark))), typ: types.Typ[types.Bool]}
+		return Val{t: mkOr(mkEq(c.slRef(v.t), refConst(0)), mkAnd(app("<=", "Bool", ev.st.lowRef(), c.slRef(v.t)), app("<", "Bool", c.slRef(v.t), ev.loopMark))), typ: types.Typ[types.Bool]}
 	case "sameSlice":
 		a, b := ev.eval(x.Args[0]), ev.eval(x.Args[1])
 		return Val{t: mkEq(a.t, b.t), typ: types.Typ[types.Bool]}
